@@ -378,6 +378,8 @@ def _patched_namespace(module, replacements):
     src = Path(module.__file__).read_text()
     for old, new, *count in replacements:
         want = count[0] if count else 1
+        if src.count(old) == 0 and src.count(new) >= 1:
+            continue  # this hunk is already in the tree (the proposed patch was committed)
         if src.count(old) != want:
             raise RuntimeError(f"proposed patch does not apply to {module.__file__}: {old[:60]!r} occurs {src.count(old)} times, expected {want}")
         src = src.replace(old, new)
